@@ -5,6 +5,7 @@ spec (JSON string, the same for both classes):
   depth        bottom depth [m]
   size         half-width of the domain in cells (particles never reach the border)
   w0           optional uniform vertical current [m/s] offered as forcing variable "w"
+  dx_alt       optional factor: cells with an odd column index are that much wider (non-uniform metric)
   flow         {"kind": "still"} |
                {"kind": "rot", "om0": rad/s, "eps": e, "nu": rad/s, "xc": .., "yc": ..}
                    angular rate om(t) = om0 * (1 + eps * sin(nu * t)), t seconds since start,
@@ -38,6 +39,9 @@ class Grid(BaseGrid):
         return self.h + np.zeros_like(X)
 
     def metric(self, X, Y):
+        if "dx_alt" in self.s:      # every other column of cells is wider by this factor
+            odd = (np.round(X).astype(int) % 2) != 0
+            return np.where(odd, self.dx * float(self.s["dx_alt"]), self.dx), self.dy + np.zeros_like(Y)
         return self.dx + np.zeros_like(X), self.dy + np.zeros_like(Y)
 
     def ingrid(self, X, Y):
